@@ -1,11 +1,15 @@
 import TrackpyV.Model.Proto
 import TrackpyV.Model.Adaptive
 import TrackpyV.Model.AdaptiveAlgo
+import TrackpyV.Model.AdaptiveNumba
 import TrackpyV.Driver.Linker
 
 /-! `ARUN p=3 q=4 sn=1 sd=4 maxa=3 w=.. B=.. mem=.. maxn=.. maxsize=.. vel=- drop=0 ; <levels as LRUN>`
   -> `verdict=<ok|bad|expect-oversize|capped> step=<k> reduced=<n> finals=<n> capsteps=<n> ties=<n|?> reason=<..>`
-  (`ties` = number of steps in which some final group's optimum is not unique, only when `ok`) -/
+  (`ties` = number of steps in which some final group's optimum is not unique, only when `ok`)
+  Optional token `nmode=1|2` (numba | hybrid): judge with `stepCheckAN` (Model/AdaptiveNumba.lean: the
+  9-candidate cap of `numba_link` is part of the plan, `ncap=` is ignored); the response then also
+  carries `ndiff=<number of steps whose plan differs from the cap-free plan>`. -/
 namespace TrackpyV.Driver.Adaptive
 open TrackpyV.Proto TrackpyV.Linker TrackpyV.Adaptive TrackpyV.Driver.Linker
 
@@ -24,6 +28,14 @@ def handleRun (rest : String) : String :=
   | c :: ls =>
     match parseACfg? c, parseCfg? c, parseAll parseLevel? ls with
     | some a, some cfg, some levels =>
+      let nmode := ((parseKV c).lookup "nmode").bind parseNat? |>.getD 0
+      if nmode != 0 then
+        let rn := runCheckAN a cfg nmode levels
+        let r := rn.run
+        let why := r.reason.replace " " "_"
+        let ties := if r.verdict == "ok" then toString rn.ties else "?"
+        s!"verdict={r.verdict} step={r.step} reduced={r.reduced} finals={r.finals} capsteps={r.cappedSteps} ties={ties} ndiff={rn.numbaSteps} reason={why}"
+      else
       let r := runCheckA a cfg levels
       let why := r.reason.replace " " "_"
       let ties := if r.verdict == "ok" then toString (runTiesA a cfg levels) else "?"
